@@ -18,6 +18,7 @@ Section Types.
   Record CurveStation2 := mk_CurveStation2 { CurveStation2_pt : (num * num)%type; CurveStation2_nrm : (num * num)%type }.
   (* parry's Ray in 2D (origin, direction) *)
   Record Ray := mk_Ray { Ray_origin : (num * num)%type; Ray_dir : (num * num)%type }.
+  Record Segment2 := mk_Segment2 { Segment2_a : (num * num)%type; Segment2_b : (num * num)%type }.
   Record Ball := mk_Ball { Ball_radius : num }.
   Record Circle2 := mk_Circle2 { Circle2_center : (num * num)%type; Circle2_ball : Ball; Circle2_aabb : unit }.
   Record Arc2 := mk_Arc2 { Arc2_circle : Circle2; Arc2_angle0 : num; Arc2_angle : num; Arc2_aabb : unit }.
@@ -25,6 +26,7 @@ End Types.
 (* field lists, compared with the ones the translator reads from the Rust source *)
 Definition fields_Circle2 := ("center" :: "ball" :: "aabb" :: nil)%list.
 Definition fields_Arc2 := ("circle" :: "angle0" :: "angle" :: "aabb" :: nil)%list.
+Definition fields_Segment2 := ("a" :: "b" :: nil)%list.
 Definition fields_Plane3 := ("normal" :: "d" :: nil)%list.
 Definition fields_Interval := ("min" :: "max" :: nil)%list.
 Definition fields_AngleInterval := ("start" :: "angle" :: nil)%list.
